@@ -22,8 +22,9 @@ enum { EV_ADD = 0, EV_RUN, EV_REPLY_OLDEST, EV_REPLY_NEWEST, EV_REPLY_DUP, EV_RE
        EV_ERROR_PDU, EV_PUSH_CONF, EV_DELIVER_1, EV_DELIVER_HALF, EV_DELIVER_ALL, EV_PEER_CLOSE, EV_NEXT_CONNECT_REFUSED, EV_NEXT_CONNECT_PENDING,
        EV_SEND_WOULDBLOCK, EV_SEND_PARTIAL, EV_CLOCK_1, EV_CLOCK_BIG, EV_NEVENTS,
        EV_ADD_CONF = EV_NEVENTS,   /* a configuration request: only in the alphabet of part "conf" */
+       EV_GROW,                    /* the application enlarges the request cache at run time: only in part "dfs2" */
        EV_NALL };
-static const char EVCH[EV_NALL + 1] = "ARonduxmseg1haCXPwp+TK";
+static const char EVCH[EV_NALL + 1] = "ARonduxmseg1haCXPwp+TKG";
 
 typedef struct { int cache, maxreq, snd, rcv, con; } config_t;
 
@@ -345,6 +346,13 @@ static int apply_inner(int ev) {
 	int i, oldest = -1, newest = -1, nun = 0;
 	for (i = 0; i < W.nreq; i++) if (!W.req[i].is_conf && W.req[i].sent_complete && !W.req[i].answered && !W.req[i].returned) { if (oldest < 0) oldest = i; newest = i; nun++; }
 	switch (ev) {
+		case EV_GROW: {
+			int res = KSI_AsyncService_setOption(W.svc, KSI_ASYNC_OPT_REQUEST_CACHE_SIZE, (void *)(size_t)(W.cfg.cache + 3));
+			vf_count("impl_calls", 1);
+			if (res == KSI_OK) { W.cfg.cache += 3; vf_outcome("grow:accepted"); }
+			else vf_outcome("grow:refused");          /* then nothing has changed */
+			return 1;
+		}
 		case EV_ADD_CONF: {
 			KSI_AsyncHandle *h = NULL;
 			KSI_AggregationReq *rq = NULL;
@@ -660,8 +668,18 @@ static const int BASE[] = {EV_ADD, EV_RUN, EV_REPLY_OLDEST, EV_DELIVER_ALL, EV_R
                            EV_ADD, EV_RUN, EV_REPLY_OLDEST, EV_DELIVER_ALL, EV_RUN};
 #define NBASE ((int)(sizeof BASE / sizeof *BASE))
 /* second default schedule: two requests in flight, completed out of order, then a third one that re-uses the freed slot */
-static const int BASE2[] = {EV_ADD, EV_ADD, EV_RUN, EV_REPLY_NEWEST, EV_DELIVER_ALL, EV_RUN, EV_ADD, EV_RUN, EV_REPLY_NEWEST, EV_DELIVER_ALL, EV_RUN, EV_REPLY_OLDEST, EV_DELIVER_ALL, EV_RUN};
-#define NBASE2 ((int)(sizeof BASE2 / sizeof *BASE2))
+static const int BASE2_ORIG[] = {EV_ADD, EV_ADD, EV_RUN, EV_REPLY_NEWEST, EV_DELIVER_ALL, EV_RUN, EV_ADD, EV_RUN, EV_REPLY_NEWEST, EV_DELIVER_ALL, EV_RUN, EV_REPLY_OLDEST, EV_DELIVER_ALL, EV_RUN};
+#define NBASE2 ((int)(sizeof BASE2_ORIG / sizeof *BASE2_ORIG))
+/* third default schedule (cache size 3): three requests, the two oldest answered and returned, a fourth request re-uses the first
+ * slot while the third is still outstanding, the application enlarges the cache, then the rest is answered */
+static const int BASE3[] = {EV_ADD, EV_ADD, EV_ADD, EV_RUN, EV_RUN, EV_REPLY_OLDEST, EV_DELIVER_ALL, EV_RUN, EV_REPLY_OLDEST, EV_DELIVER_ALL, EV_RUN, EV_ADD, EV_RUN, EV_GROW,
+                            EV_REPLY_OLDEST, EV_DELIVER_ALL, EV_RUN, EV_REPLY_OLDEST, EV_DELIVER_ALL, EV_RUN};
+#define NBASE3 ((int)(sizeof BASE3 / sizeof *BASE3))
+static const int *g_base2 = BASE2_ORIG;
+static int g_nbase2 = NBASE2;
+#undef NBASE2
+#define NBASE2 g_nbase2
+#define BASE2 g_base2
 static void run_schedule2(const config_t *cfg, int ins_pos, int ins_ev) {
 	int i, n = 0;
 	char *g = g_hist;
@@ -764,14 +782,15 @@ static void part_timeouts(void) {
 }
 
 static void part_dfs2(void) {
-	static const int CFG_IDX[] = {1, 6, 2};
+	static const int CFG_IDX[] = {1, 6, 2, 6};
 	int ci, p1, e1;
-	for (ci = 0; ci < 3; ci++) for (p1 = -1; p1 <= NBASE2; p1++) {
-		if (!vf_case_begin("dfs2:cfg%d:ins%d", CFG_IDX[ci], p1)) continue;
+	for (ci = 0; ci < 4; ci++) for (p1 = -1; p1 <= (ci == 3 ? NBASE3 : (int)(sizeof BASE2_ORIG / sizeof *BASE2_ORIG)); p1++) {
+		g_base2 = ci == 3 ? BASE3 : BASE2_ORIG; g_nbase2 = ci == 3 ? NBASE3 : (int)(sizeof BASE2_ORIG / sizeof *BASE2_ORIG);
+		if (!vf_case_begin("dfs%d:cfg%d:ins%d", ci == 3 ? 3 : 2, CFG_IDX[ci], p1)) continue;
 		n_transitions = 0;
 		if (p1 < 0) run_schedule2(&CONFIGS[CFG_IDX[ci]], -1, 0);
-		else for (e1 = 0; e1 < EV_NEVENTS; e1++) run_schedule2(&CONFIGS[CFG_IDX[ci]], p1, e1);
-		vf_count("traces", p1 < 0 ? 1 : EV_NEVENTS); vf_count("transitions", n_transitions); vf_count("dfs_schedules", p1 < 0 ? 1 : EV_NEVENTS);
+		else { for (e1 = 0; e1 < EV_NEVENTS; e1++) run_schedule2(&CONFIGS[CFG_IDX[ci]], p1, e1); run_schedule2(&CONFIGS[CFG_IDX[ci]], p1, EV_GROW); }
+		vf_count("traces", p1 < 0 ? 1 : EV_NEVENTS + 1); vf_count("transitions", n_transitions); vf_count("dfs_schedules", p1 < 0 ? 1 : EV_NEVENTS + 1);
 		vf_case_end(1);
 	}
 }
